@@ -167,15 +167,20 @@ class ImplCoverage:
         if self.cov is None:
             return None
         import ast as _ast
+        import warnings as _w
         try:
-            self.cov.stop()
+            with _w.catch_warnings():
+                _w.simplefilter('ignore')
+                self.cov.stop()
             out = {}
             for rel in self.files:
                 path = os.path.join(REPO, rel)
                 if not os.path.exists(path):
                     continue
                 try:
-                    _, stmts, _, missing, _ = self.cov.analysis2(path)
+                    with _w.catch_warnings():
+                        _w.simplefilter('ignore')
+                        _, stmts, _, missing, _ = self.cov.analysis2(path)
                 except Exception:
                     continue
                 stmts, missing = set(stmts), set(missing)
